@@ -1398,6 +1398,12 @@ pub mod simfs {
             OsString::from(&self.name)
         }
         pub fn file_type(&self) -> io::Result<FileType> {
+            // answered from the listing where the file system says what an entry is (d_type); on
+            // one that does not (DT_UNKNOWN: some network and older file systems) std falls back to
+            // lstat, which can fail like any other metadata query (round 15, seeded m60)
+            if world::with(|w| w.stat_fails_now()) {
+                return Err(io::Error::from_raw_os_error(5));
+            }
             Ok(FileType { is_dir: self.is_dir })
         }
         pub fn metadata(&self) -> io::Result<Metadata> {
@@ -1707,18 +1713,35 @@ pub mod simfs {
         cur: Arc<std::sync::atomic::AtomicUsize>,
         /// opened in append mode: writes go to the end whatever the offset
         append: bool,
-        rng: Option<Rng>,
-        consecutive_eintr: u32,
         /// Some(key) = opened for writing
         write_key: Option<String>,
-        /// short writes / EINTR plan of a file opened for writing
-        wrng: Option<Rng>,
-        consecutive_weintr: u32,
+        /// the handle's stream plans (short reads / writes, EINTR): behind a lock because std
+        /// implements `Read`, `Write` and `Seek` for `&File` too (round 15, control `u15_r3`)
+        st: std::sync::Mutex<StreamState>,
         _fd: Fd,
         _writer: Option<Writer>,
         /// (round 13) 1 / 2: this handle is a duplicate of the stdout / stderr descriptor
         /// (`stdout().as_fd().try_clone_to_owned()` turned into a `File`)
         stdio: u8,
+    }
+
+    #[derive(Default)]
+    struct StreamState {
+        rng: Option<Rng>,
+        consecutive_eintr: u32,
+        /// short writes / EINTR plan of a file opened for writing
+        wrng: Option<Rng>,
+        consecutive_weintr: u32,
+    }
+    impl StreamState {
+        fn new(rng: Option<Rng>, wrng: Option<Rng>) -> std::sync::Mutex<StreamState> {
+            std::sync::Mutex::new(StreamState {
+                rng,
+                consecutive_eintr: 0,
+                wrng,
+                consecutive_weintr: 0,
+            })
+        }
     }
 
     pub(crate) fn write_key_of(p: &Path) -> String {
@@ -2016,11 +2039,8 @@ pub mod simfs {
                 data: d,
                 cur: Arc::new(std::sync::atomic::AtomicUsize::new(0)),
                 append: false,
-                rng: if io_seed == 0 { None } else { Some(Rng::new(io_seed)) },
-                consecutive_eintr: 0,
+                st: StreamState::new(if io_seed == 0 { None } else { Some(Rng::new(io_seed)) }, None),
                 write_key: None,
-                wrng: None,
-                consecutive_weintr: 0,
             })
         }
         /// `File::create`: captured, never touches the real tree
@@ -2089,11 +2109,8 @@ pub mod simfs {
                 data: Arc::new(vec![]),
                 cur: Arc::new(std::sync::atomic::AtomicUsize::new(0)),
                 append,
-                rng: None,
-                consecutive_eintr: 0,
+                st: StreamState::new(None, if io_seed == 0 { None } else { Some(Rng::new(io_seed)) }),
                 write_key: Some(key),
-                wrng: if io_seed == 0 { None } else { Some(Rng::new(io_seed)) },
-                consecutive_weintr: 0,
             })
         }
         pub fn metadata(&self) -> io::Result<Metadata> {
@@ -2155,9 +2172,10 @@ pub mod simfs {
             };
             let pos = (offset as usize).min(data.len());
             let mut n = (data.len() - pos).min(buf.len());
-            if self.rng.is_some() && n > 1 {
+            let plan_draws = self.st.lock().unwrap_or_else(|e| e.into_inner()).rng.as_ref().map(|r| r.draws);
+            if plan_draws.is_some() && n > 1 {
                 // a plan derived from the stream's seed and the offset (the handle is shared)
-                let mut r = Rng::new(self.rng.as_ref().map(|r| r.draws).unwrap_or(0) ^ offset.wrapping_mul(0x9E37_79B9_7F4A_7C15) ^ 0x51ed);
+                let mut r = Rng::new(plan_draws.unwrap_or(0) ^ offset.wrapping_mul(0x9E37_79B9_7F4A_7C15) ^ 0x51ed);
                 if r.chance(1, 2) {
                     n = 1 + r.below(n as u64 - 1) as usize;
                     world::with(|w| w.stats.short_reads += 1);
@@ -2233,11 +2251,11 @@ pub mod simfs {
                 data: self.data.clone(),
                 cur: self.cur.clone(),
                 append: self.append,
-                rng: self.rng.clone(),
-                consecutive_eintr: 0,
+                st: {
+                    let st = self.st.lock().unwrap_or_else(|e| e.into_inner());
+                    StreamState::new(st.rng.clone(), st.wrng.clone())
+                },
                 write_key: self.write_key.clone(),
-                wrng: self.wrng.clone(),
-                consecutive_weintr: 0,
             })
         }
     }
@@ -2284,6 +2302,29 @@ pub mod simfs {
 
     impl io::Read for File {
         fn read(&mut self, buf: &mut [u8]) -> io::Result<usize> {
+            self.do_read(buf)
+        }
+    }
+    impl io::Read for &File {
+        fn read(&mut self, buf: &mut [u8]) -> io::Result<usize> {
+            self.do_read(buf)
+        }
+    }
+    impl io::Write for &File {
+        fn write(&mut self, buf: &[u8]) -> io::Result<usize> {
+            self.do_write(buf)
+        }
+        fn flush(&mut self) -> io::Result<()> {
+            Ok(())
+        }
+    }
+    impl io::Seek for &File {
+        fn seek(&mut self, s: io::SeekFrom) -> io::Result<u64> {
+            self.do_seek(s)
+        }
+    }
+    impl File {
+        fn do_read(&self, buf: &mut [u8]) -> io::Result<usize> {
             if let Some(key) = &self.cur_key() {
                 // a handle opened read+write: read what the file holds now
                 let cur = world::with(|w| w.written.get(key).cloned().unwrap_or_default());
@@ -2296,16 +2337,18 @@ pub mod simfs {
             let at = self.pos().min(self.data.len());
             let remaining = self.data.len() - at;
             let mut n = remaining.min(buf.len());
-            if let Some(rng) = self.rng.as_mut() {
-                if n > 0 && self.consecutive_eintr < 3 && rng.chance(1, 8) {
-                    self.consecutive_eintr += 1;
+            let mut st = self.st.lock().unwrap_or_else(|e| e.into_inner());
+            let st = &mut *st;
+            if let Some(rng) = st.rng.as_mut() {
+                if n > 0 && st.consecutive_eintr < 3 && rng.chance(1, 8) {
+                    st.consecutive_eintr += 1;
                     world::with(|w| {
                         w.stats.eintr += 1;
                         w.event("eintr", at as u64, 0);
                     });
                     return Err(io::Error::new(io::ErrorKind::Interrupted, "simulated EINTR"));
                 }
-                self.consecutive_eintr = 0;
+                st.consecutive_eintr = 0;
                 if n > 1 && rng.chance(1, 2) {
                     n = 1 + rng.below(n as u64 - 1) as usize;
                     world::with(|w| w.stats.short_reads += 1);
@@ -2338,17 +2381,22 @@ pub mod simfs {
                 data: Arc::new(vec![]),
                 cur: Arc::new(std::sync::atomic::AtomicUsize::new(0)),
                 append: true,
-                rng: None,
-                consecutive_eintr: 0,
+                st: StreamState::new(None, None),
                 write_key: None,
-                wrng: None,
-                consecutive_weintr: 0,
             })
         }
     }
 
     impl io::Write for File {
         fn write(&mut self, buf: &[u8]) -> io::Result<usize> {
+            self.do_write(buf)
+        }
+        fn flush(&mut self) -> io::Result<()> {
+            Ok(())
+        }
+    }
+    impl File {
+        fn do_write(&self, buf: &[u8]) -> io::Result<usize> {
             match self.stdio {
                 1 => return super::simio::put(buf),
                 2 => {
@@ -2360,9 +2408,13 @@ pub mod simfs {
             if self.cur_key().is_none() {
                 return Err(io::Error::new(io::ErrorKind::PermissionDenied, "file not opened for writing"));
             }
-            let n = match super::simio::plan_write(&mut self.wrng, &mut self.consecutive_weintr, buf.len()) {
-                Ok(n) => n,
-                Err(e) => return Err(e),
+            let n = {
+                let mut st = self.st.lock().unwrap_or_else(|e| e.into_inner());
+                let st = &mut *st;
+                match super::simio::plan_write(&mut st.wrng, &mut st.consecutive_weintr, buf.len()) {
+                    Ok(n) => n,
+                    Err(e) => return Err(e),
+                }
             };
             // (round 11) a full device takes a prefix (short write), then nothing (ENOSPC)
             let n = {
@@ -2414,13 +2466,15 @@ pub mod simfs {
             }
             Ok(n)
         }
-        fn flush(&mut self) -> io::Result<()> {
-            Ok(())
-        }
     }
 
     impl io::Seek for File {
         fn seek(&mut self, s: io::SeekFrom) -> io::Result<u64> {
+            self.do_seek(s)
+        }
+    }
+    impl File {
+        fn do_seek(&self, s: io::SeekFrom) -> io::Result<u64> {
             if let Some(key) = &self.cur_key() {
                 let len = world::with(|w| w.written.get(key).map(|d| d.len()).unwrap_or(0));
                 let cur = if self.append { len } else { self.pos() };
@@ -3045,11 +3099,19 @@ pub mod simthread {
         F: FnOnce() -> T + Send + 'static,
         T: Send + 'static,
     {
+        if world::try_with(|w| w.spawn_fails_now()).unwrap_or(false) {
+            // as std::thread::spawn: `Builder::spawn(..).expect("failed to spawn thread")`
+            panic!("failed to spawn thread: {:?}", eagain());
+        }
         let done = std::sync::Arc::new(std::sync::atomic::AtomicBool::new(false));
         JoinHandle {
             inner: shuttle::thread::spawn(wrap(f, done.clone())),
             done,
         }
+    }
+    /// (round 15) what thread creation fails with when the process may not have another thread
+    pub(crate) fn eagain() -> std::io::Error {
+        std::io::Error::from_raw_os_error(11)
     }
     #[derive(Debug, Default)]
     pub struct Builder {
@@ -3080,6 +3142,9 @@ pub mod simthread {
             F: FnOnce() -> T + Send + 'static,
             T: Send + 'static,
         {
+            if world::try_with(|w| w.spawn_fails_now()).unwrap_or(false) {
+                return Err(eagain());
+            }
             let done = std::sync::Arc::new(std::sync::atomic::AtomicBool::new(false));
             Ok(JoinHandle {
                 inner: self.inner.spawn(wrap(f, done.clone()))?,
@@ -3091,6 +3156,9 @@ pub mod simthread {
             F: FnOnce() -> T + Send + 'scope,
             T: Send + 'scope,
         {
+            if world::try_with(|w| w.spawn_fails_now()).unwrap_or(false) {
+                return Err(eagain());
+            }
             Ok(scope.spawn_named(self.name, f))
         }
     }
@@ -3150,6 +3218,9 @@ pub mod simthread {
             F: FnOnce() -> T + Send + 'scope,
             T: Send + 'scope,
         {
+            if world::try_with(|w| w.spawn_fails_now()).unwrap_or(false) {
+                panic!("failed to spawn thread: {:?}", eagain());
+            }
             self.spawn_named(None, f)
         }
         pub(crate) fn spawn_named<F, T>(&'scope self, name: Option<String>, f: F) -> ScopedJoinHandle<'scope, T>
